@@ -24,6 +24,9 @@ import (
 	consensus "github.com/oasisprotocol/oasis-core/go/consensus/genesis"
 	genesis "github.com/oasisprotocol/oasis-core/go/genesis/api"
 	governance "github.com/oasisprotocol/oasis-core/go/governance/api"
+	keymanager "github.com/oasisprotocol/oasis-core/go/keymanager/api"
+	"github.com/oasisprotocol/oasis-core/go/keymanager/churp"
+	"github.com/oasisprotocol/oasis-core/go/keymanager/secrets"
 	registry "github.com/oasisprotocol/oasis-core/go/registry/api"
 	roothash "github.com/oasisprotocol/oasis-core/go/roothash/api"
 	scheduler "github.com/oasisprotocol/oasis-core/go/scheduler/api"
@@ -115,6 +118,7 @@ type GenesisOptions struct {
 	RtRoundTimeout      int64    // executor round timeout in blocks (default 5)
 	RtTwoVersions       bool     // the runtime has a second deployment (version 1.0.0) valid from epoch 3; node 1 is registered for the old version only
 	Prefix              []string // letter names executed (one block each) before the explored history starts: part of the initial state (interpreted by the engines, not by Genesis)
+	KeyManager          bool     // a key manager runtime without TEE hardware owned by entity 0; all genesis nodes are also key manager nodes for it (pristine init response)
 	Feature261          bool     // consensus feature version 26.1 (runtime owner index, node / runtime admission rules of 26.1 after genesis)
 	VRF                 bool     // VRF beacon backend (the production one): epochs of EpochInterval blocks, proofs accepted VRFDelay blocks after an epoch starts, alpha is high quality with >= VRFThreshold proofs
 	VRFDelay            int64    // proof submission delay (default 1)
@@ -210,6 +214,46 @@ func (k *Keys) RuntimeDescriptor(ent int, o GenesisOptions) *registry.Runtime {
 	}
 	rt.Genesis.StateRoot.Empty()
 	return rt
+}
+
+// KMRuntimeID is the identifier of the universe's key manager runtime.
+func KMRuntimeID() common.Namespace {
+	return common.NewTestNamespaceFromSeed([]byte("verif key manager 0"), common.NamespaceTest|common.NamespaceKeyManager)
+}
+
+// KMRuntimeIDValue is KMRuntimeID() as an addressable value.
+var KMRuntimeIDValue = KMRuntimeID()
+
+// KMRuntimeDescriptor builds the descriptor of the key manager runtime (no TEE hardware: init
+// responses and secrets are signed by the well-known insecure attestation key).
+func (k *Keys) KMRuntimeDescriptor(ent int) *registry.Runtime {
+	return &registry.Runtime{
+		Versioned:       cbor.NewVersioned(registry.LatestRuntimeDescriptorVersion),
+		ID:              KMRuntimeID(),
+		EntityID:        k.Entities[ent].Public(),
+		Kind:            registry.KindKeyManager,
+		TEEHardware:     node.TEEHardwareInvalid,
+		AdmissionPolicy: registry.RuntimeAdmissionPolicy{AnyNode: &registry.AnyNodeRuntimeAdmissionPolicy{}},
+		GovernanceModel: registry.GovernanceEntity,
+		Deployments:     []*registry.VersionInfo{{}},
+	}
+}
+
+// KMNodeRuntime is the per-runtime part of a key manager node's descriptor carrying the given
+// init response, signed by signer (nil: the insecure attestation key).
+func KMNodeRuntime(rsp *secrets.InitResponse, signer signature.Signer) *node.Runtime {
+	if signer == nil {
+		signer = keymanager.TestSigners[0]
+	}
+	nr := &node.Runtime{ID: KMRuntimeID()}
+	if rsp != nil {
+		sr, err := secrets.SignInitResponse(signer, rsp)
+		if err != nil {
+			panic(err)
+		}
+		nr.ExtraInfo = cbor.Marshal(sr)
+	}
+	return nr
 }
 
 // NodeSigners returns the signers that must sign node i's descriptor.
@@ -456,6 +500,17 @@ func Genesis(k *Keys, o GenesisOptions) (*genesis.Document, error) {
 		doc.Registry.Runtimes = append(doc.Registry.Runtimes, k.RuntimeDescriptor(0, o))
 		roles |= node.RoleComputeWorker
 		nodeRts = []*node.Runtime{{ID: RuntimeID()}}
+	}
+	if o.KeyManager {
+		doc.Registry.Runtimes = append(doc.Registry.Runtimes, k.KMRuntimeDescriptor(0))
+		roles |= node.RoleKeyManager
+		nodeRts = append(nodeRts, KMNodeRuntime(&secrets.InitResponse{}, nil))
+		doc.KeyManager = keymanager.Genesis{
+			Genesis: secrets.Genesis{Parameters: secrets.ConsensusParameters{GasCosts: transaction.Costs{
+				secrets.GasOpUpdatePolicy: 3, secrets.GasOpPublishMasterSecret: 2, secrets.GasOpPublishEphemeralSecret: 2,
+			}}},
+			Churp: &churp.Genesis{Parameters: churp.ConsensusParameters{GasCosts: churp.DefaultGasCosts}},
+		}
 	}
 	// Registry: entities and their validator nodes.
 	for e := range k.Entities {
